@@ -292,3 +292,18 @@ class MCSendScp:
         length = 512 if self._scp_data_length is None else unopt(self._scp_data_length)
         return (result == g_reply and len(_trace) == 2 and _trace[0] == ("connection_for", x, y)
                 and _trace[1] == ("send_scp", g_conn.__id__, length, x, y, p, args[0], args[1], ("expected_args", g_expected)))
+
+
+@contract("rig/utils/contexts.py::Context.before_close")
+class ContextBeforeClose:
+    """registering close functions ADDS them, in order, after the ones already registered (MachineController.application()
+    registers the stop signal; a user hook registered afterwards must not displace it)"""
+    properties = ("C18",)
+    params = dict(self=TRec("Context", _before_close=TList(CB(0))), args=TTuple(CB(1), CB(2)))
+
+    def native(args):
+        raise __import__("pyvc.replay", fromlist=["OutsideHarness"]).OutsideHarness()
+
+    def ensures_appended_after_the_functions_already_registered(self, self_post):
+        return (len(self_post._before_close) == 3 and self_post._before_close[0].n == 0
+                and self_post._before_close[1].n == 1 and self_post._before_close[2].n == 2)
